@@ -1028,6 +1028,9 @@ impl World {
                 // ---- trace (what contracts observed); the first divergence decides ----
                 let trace_diff = first_trace_diff(&info.out.trace, &real_trace);
                 rep.add("e1/trace/entries_compared", real_trace.len() as u64);
+                if real_trace.len() >= 20 {
+                    rep.bump("e1/trace/transactions_with_20_or_more_invocations");
+                }
                 rep.add("e1/trace/reply_entries_compared", real_trace.iter().filter(|t| t.entry == Entry::Reply).count() as u64);
                 rep.add("e1/trace/probes_compared", real_trace.iter().map(|t| t.probes.len()).sum::<usize>() as u64);
                 let diverged = trace_diff.is_some();
